@@ -121,6 +121,9 @@ pub fn build_plan(property: &str, tier: &str, seed: u64, ctx: &Arc<ExecCtx>) -> 
             }
             seeded(&mut plan, "c10-random", if quick { 300 } else { 30_000 }, 10);
             seeded(&mut plan, "c10-multi", if quick { 60 } else { 3_000 }, 1010);
+            if ctx.zipped_base.is_some() {
+                seeded(&mut plan, "c10-multi-zipped", if quick { 40 } else { 2_000 }, 2010);
+            }
             plan.rule = "directed: every ordered pair X->Y->X of values of Language, SpeechStyle, BrailleCode, Verbosity, TTS, DecimalSeparator, BlockSeparators, CheckRuleFiles over eight expressions with checkpoints before, away and back (getters 1..n times in different orders, navigation and routing between reads) and the Language=Auto/LanguageAuto flows; seeded random histories of 15-90 preference switches (39 preferences), set_mathml, getters, navigation, routing, set_rules_dir, clock advances and touches of rule files (mtime moves, content does not) with checkpoints in re-set and as-is mode: the four outputs must equal byte for byte (ids normalised) those of a fresh session given the session's current preference values; and multi-session runs: 2-3 sessions with different configurations in one world interleaved by the seeded baton scheduler at every API call and every seam call, each session's results must equal those of its solo run. non-trivial = at least one checkpoint or solo comparison was made; distinct = distinct trace hashes".into();
             plan.required_probes = vec!["checkpoint_reset_equal", "checkpoint_asis_equal", "getter_repeated_same", "touch_forces_reload", "session_equals_solo_run"].into_iter().map(String::from).collect();
         }
@@ -145,6 +148,7 @@ pub fn unit_trace(plan: &Plan, i: usize, ctx: &Arc<ExecCtx>) -> Trace {
             "c11-random" => props::c11::random_trace(*seed),
             "c10-random" => props::c10::random_trace(*seed),
             "c10-multi" => props::c10::multi_session_trace(*seed, false),
+            "c10-multi-zipped" => props::c10::multi_session_trace(*seed, true),
             "c09-random" => props::c09::random_trace(*seed),
             "c20-random" => props::c20::random_trace(*seed),
             "c12-random" => props::c12::random_trace(*seed, &props::common::pref_names(&ctx.base)),
